@@ -102,6 +102,31 @@ def gen_cases(rng, tier):
       node = {"k": "ranges", "parts": [[">", 0.0, node], [">=", 7.5, spec.gen_form(rng, rmax=1.0)]]}
     rs = [round(rng.uniform(0.3, 12.0), 3) for _ in range(6)]
     cases.append({"kind": "tree", "route": "api", "node": node, "forms": [], "tables": [], "rs": sorted(set(rs)), "mixed": True})
+  # stationary points: r where the slope of a component is EXACTLY zero (morse at r*, the vertex of a parabola, an even
+  # power at 0) - the places where a derivative formula that branches on "slope == 0" would take its other branch
+  ns = 18 if tier == "quick" else 200
+  for i in range(ns):
+    rstar = rng.choice([0.5, 1.0, 1.5, 2.0, 2.5, 3.0])
+    stat = rng.choice([{"k": "form", "name": "morse", "p": [spec.rfloat(rng, 0.5, 2.0), rstar, spec.rfloat(rng, 0.1, 1.5)]},
+                       {"k": "form", "name": "polynomial", "p": [spec.rfloat(rng, 1.0, 5.0), -2.0 * rstar, 1.0]},
+                       {"k": "form", "name": "polynomial", "p": [spec.rfloat(rng, 0.5, 2.0), -4.0 * rstar, 2.0]}])
+    other = spec.gen_node(rng, 1, "api", positive=True, kinds=["form", "sum", "product"], rmax=1.0)
+    op = ["pow_exponent", "pow_base", "product", "sum", "trans"][i % 5]
+    route = "api"
+    if op == "pow_exponent":
+      node = {"k": "pow", "a": [other, stat]}
+    elif op == "pow_base":
+      node = {"k": "pow", "a": [{"k": "sum", "a": [stat, {"k": "form", "name": "constant", "p": [30.0]}]}, {"k": "form", "name": "polynomial", "p": [0.5, 0.1]}]}
+    elif op == "trans":
+      node = {"k": "trans", "f": {"k": "product", "a": [other, stat]}, "x": 0.5}
+      route = "potable"
+      rstar = rstar - 0.5
+    else:
+      node = {"k": op, "a": [other, stat] if i % 2 else [stat, other]}
+    if i % 3 == 0 and route == "api":
+      route = "potable"
+    rs = sorted(set([rstar, rstar + 0.25, max(0.05, rstar - 0.25), 4.5]))
+    cases.append({"kind": "tree", "route": route, "node": node, "forms": [], "tables": [], "rs": [r for r in rs if r > 0], "stationary": True})
   # per-form sweeps (incl. heavy ZBL at large r and r = 0 for regular forms)
   per = 4 if tier == "quick" else 40
   for name in ALLFORMS:
@@ -221,6 +246,8 @@ def run_case(case, ctx):
     ctx.cls("node:" + k)
   o = oracle.ValueOracle(M, refnode, analytic=spec.all_analytic(node))
   ctx.cls("all_analytic" if o.analytic else "has_numeric_component")
+  if case.get("stationary"):
+    ctx.cls("evaluated_at_exact_stationary_point_of_a_component")
   # documented hasattr rule
   for order, attr in ((1, "deriv"), (2, "deriv2")):
     want = spec.has_deriv(node, order)
